@@ -2921,6 +2921,8 @@ class Translator(object):
         doc = "result: %s" % ", ".join(names)
         if unchanged:
             doc += "; unchanged `&mut` parameters (not returned): %s" % ", ".join(unchanged)
+        # phase 3 (kept calls of this definition) needs its signature
+        self.last = dict(spec=spec, code=code, f=f, ctx=ctx, leaves=leaves, results=results, names=names, outs=outs)
         return self.loops + ["\n".join(txt)], doc
 
     def ref_of(self, code, v, outs, L):
